@@ -2,6 +2,7 @@ package props
 
 import (
 	"context"
+	goerrors "errors"
 	"fmt"
 	"regexp"
 	"strings"
@@ -36,13 +37,13 @@ func (c17) Rule() string {
 // ---- code versions ----------------------------------------------------------
 
 const (
-	v0 = iota // never knew the type
-	v1        // foo
-	v2        // foo -> bar
-	vB        // foo -> qux
-	v3        // foo -> bar -> baz
-	v4        // foo -> bar -> baz -> zed
-	v2n       // foo -> bar, rename registered but no decoder: received errors stay opaque
+	v0  = iota // never knew the type
+	v1         // foo
+	v2         // foo -> bar
+	vB         // foo -> qux
+	v3         // foo -> bar -> baz
+	v4         // foo -> bar -> baz -> zed
+	v2n        // foo -> bar, rename registered but no decoder: received errors stay opaque
 	numVersions
 )
 
@@ -172,6 +173,19 @@ func buildVersion(v, perm int) *migProfile {
 					Expected: "panic", Observed: "accepted", Where: versionNames[v] + " " + gen.FormNames[form]})
 				// undo is not possible through the API; rebuild below
 			}
+			// ... also when the second declaration repeats the first one, or
+			// names another (earlier) name of the same chain
+			for _, from := range []int{last[0], chain[0][0]} {
+				from := from
+				p := obs.S(func() string {
+					errors.RegisterTypeMigration(gen.MigPkgPath, gen.MigTypeName(from, form), gen.MigNew(last[1], form, "", errProbe))
+					return ""
+				})
+				if p == "" {
+					mp.problems = append(mp.problems, Violation{Prop: "C17", Oracle: "duplicate-target-rejected", Culprit: "RegisterTypeMigration", Config: "same chain",
+						Expected: "panic", Observed: "accepted", Where: versionNames[v] + " " + gen.FormNames[form] + " second declaration from " + gen.MigNames[from]})
+				}
+			}
 		}
 	}
 	// a renamed error type that is itself a protobuf message: no decoder, the
@@ -197,6 +211,55 @@ func buildVersion(v, perm int) *migProfile {
 			} else if obs.IsOne(dec, pe) != 'T' || obs.IsOne(pe, dec) != 'T' {
 				mp.problems = append(mp.problems, Violation{Prop: "C17", Oracle: "is-locally-built-equivalent", Culprit: "identity", Config: "receiver=" + versionNames[v] + " form=proto-message",
 					Expected: "TT", Observed: "not both", Where: "loop-back transfer at " + versionNames[v]})
+			}
+		}
+	}
+	// renames that change the receiver kind, and a renamed multi-cause type
+	// with its own decoder: key, wire family and loop-back transfer
+	if v == v2 {
+		errors.RegisterTypeMigration(gen.MigPkgPath, "*gen.XFooP", gen.XBarV{})
+		errors.RegisterTypeMigration(gen.MigPkgPath, "gen.XFooV", &gen.XBarP{})
+		errors.RegisterTypeMigration(gen.MigPkgPath, "*gen.FooMulti", &gen.BarMulti{})
+		errors.RegisterLeafDecoder(errors.GetTypeKey(gen.XBarV{}), func(_ context.Context, msg string, _ []string, _ proto.Message) error { return gen.XBarV{Msg: msg} })
+		errors.RegisterLeafDecoder(errors.GetTypeKey(&gen.XBarP{}), func(_ context.Context, msg string, _ []string, _ proto.Message) error { return &gen.XBarP{Msg: msg} })
+		errors.RegisterMultiCauseDecoder(errors.GetTypeKey(&gen.BarMulti{}), func(_ context.Context, causes []error, msg string, _ []string, _ proto.Message) error {
+			return &gen.BarMulti{Msg: msg, Errs: causes}
+		})
+		for _, sc := range []struct {
+			label, wantKey string
+			mk             func() error
+		}{
+			{"pointer-to-value", gen.MigPkgPath + "/*gen.XFooP", func() error { return gen.XBarV{Msg: "TKUxvQ"} }},
+			{"value-to-pointer", gen.MigPkgPath + "/gen.XFooV", func() error { return &gen.XBarP{Msg: "TKUxpQ"} }},
+			{"multi-cause", gen.MigPkgPath + "/*gen.FooMulti", func() error {
+				return &gen.BarMulti{Msg: "TKUmultiQ", Errs: []error{errors.New("TKSb1Q"), goerrors.New("TKUb2Q")}}
+			}},
+		} {
+			pe := sc.mk()
+			cfgs := "form=" + sc.label
+			if k := errors.GetTypeKey(pe); string(k) != sc.wantKey {
+				mp.problems = append(mp.problems, Violation{Prop: "C17", Oracle: "key-of-newest-name", Culprit: "RegisterTypeMigration", Config: cfgs,
+					Expected: sc.wantKey, Observed: string(k), Where: versionNames[v]})
+			}
+			data, p := obs.Encode(pe)
+			if p != "" {
+				mp.problems = append(mp.problems, Violation{Prop: "C17", Oracle: "encode-at-sender", Culprit: obs.PanicSite(p), Config: cfgs, Expected: "no panic", Observed: short(p), Where: versionNames[v]})
+				continue
+			}
+			if enc, err := world.ParseWire(data); err == nil && enc.GetLeaf() != nil && enc.GetLeaf().Details.ErrorTypeMark.FamilyName != sc.wantKey {
+				mp.problems = append(mp.problems, Violation{Prop: "C17", Oracle: "wire-family-is-original-name", Culprit: "encoder", Config: cfgs,
+					Expected: sc.wantKey, Observed: enc.GetLeaf().Details.ErrorTypeMark.FamilyName, Where: versionNames[v]})
+			}
+			dec, p2 := obs.Decode(data)
+			if a, b := fmt.Sprintf("%T", pe), fmt.Sprintf("%T", dec); a != b || p2 != "" {
+				mp.problems = append(mp.problems, Violation{Prop: "C17", Oracle: "decodes-to-current-type", Culprit: "decoder", Config: "receiver=" + versionNames[v] + " " + cfgs,
+					Expected: a, Observed: b + " " + short(p2), Where: "loop-back transfer at " + versionNames[v]})
+			} else if obs.IsOne(dec, pe) != 'T' || obs.IsOne(pe, dec) != 'T' {
+				mp.problems = append(mp.problems, Violation{Prop: "C17", Oracle: "is-locally-built-equivalent", Culprit: "identity", Config: "receiver=" + versionNames[v] + " " + cfgs,
+					Expected: "TT", Observed: "not both", Where: "loop-back transfer at " + versionNames[v]})
+			} else if m, ok := dec.(*gen.BarMulti); ok && len(m.Errs) != 2 {
+				mp.problems = append(mp.problems, Violation{Prop: "C17", Oracle: "decodes-to-current-type", Culprit: "decoder", Config: "receiver=" + versionNames[v] + " " + cfgs,
+					Expected: "2 branches", Observed: fmt.Sprint(len(m.Errs)), Where: "loop-back transfer at " + versionNames[v]})
 			}
 		}
 	}
@@ -449,7 +512,7 @@ func (p c17) Run(t *tape.Tape, tier Tier) *Result {
 				sim.Logf("third-party %c%c", a, b)
 				if a != 'T' || b != 'T' {
 					res.add(Violation{Prop: "C17", Oracle: "copies-from-different-versions-equal", Culprit: "identity",
-						Config: "receiver=" + versionNames[v] + " form=" + gen.FormNames[form],
+						Config:   "receiver=" + versionNames[v] + " form=" + gen.FormNames[form],
 						Expected: "TT", Observed: string([]byte{a, b}), Where: fmt.Sprintf("receiver %s compares copies from %s and %s", versionNames[v], versionNames[sender], versionNames[sender2])})
 				}
 			}
